@@ -67,6 +67,9 @@ NARROW_INT = {"int", "unsigned int", "unsigned", "signed", "signed int", "short"
               "uint_least16_t", "int_least8_t", "uint_least8_t", "char16_t", "char32_t", "wchar_t"}
 
 
+INT_CASTS_VISIBLE = False     # set while the managed-filter runtime is lowered (fv.rtmodel): only there the width of a count matters
+
+
 def clean_type(t: str) -> str:
     t = " ".join(w for w in (t or "").replace("std::", "").replace("::", " ").split() if w not in ("const", "volatile", "constexpr", "static", "register"))
     return t.strip()
@@ -86,7 +89,7 @@ def lower_expr(n) -> Any:
     ks = kids(n)
     if k in ("CXXStaticCastExpr", "CXXFunctionalCastExpr", "CStyleCastExpr") and ks and n.get("type", {}).get("qualType", "") in ("float", "const float", "_Float16", "__fp16"):
         return ("call", "narrow_float", [lower_expr(ks[0])])       # an explicit narrowing of a double: not value preserving
-    if k in ("CXXStaticCastExpr", "CXXFunctionalCastExpr", "CStyleCastExpr") and ks and is_narrow_int(n.get("type", {})):
+    if INT_CASTS_VISIBLE and k in ("CXXStaticCastExpr", "CXXFunctionalCastExpr", "CStyleCastExpr") and ks and is_narrow_int(n.get("type", {})):
         return ("call", "narrow_int", [lower_expr(ks[0])])         # an explicit cast to an integer type of fewer than 64 bits
     if k in TRANSPARENT and ks:
         return lower_expr(ks[0])
